@@ -95,13 +95,21 @@ theorem loop_length (now : Int) (spec document nowV : Val) (multi : Bool) :
             have hlen := setDoc_length c key new hk
             by_cases hc : (if c.isOD key then pyEqOrdered new cur else pyEq new cur) = true
             · rw [if_pos hc] at h
-              cases multi with
-              | true =>
-                simp only [if_true] at h
-                exact hlen ▸ ih _ _ _ _ _ h
-              | false =>
-                simp only [Bool.false_eq_true, if_false] at h
-                cases h; exact Nat.le_of_eq hlen
+              -- the unique indexes are checked on the "unchanged" branch as well
+              cases hu : ensureUniques now (c.setDoc key new) new with
+              | error e => rw [hu] at h; cases h; exact Nat.le_refl _
+              | ok c2 =>
+                rw [hu] at h
+                dsimp only at h
+                have h2 : c2.docs.length ≤ c.docs.length :=
+                  hlen ▸ (ensureUniques_sub now _ _ _ hu).length_le
+                cases multi with
+                | true =>
+                  simp only [if_true] at h
+                  exact Nat.le_trans (ih _ _ _ _ _ h) h2
+                | false =>
+                  simp only [Bool.false_eq_true, if_false] at h
+                  cases h; exact h2
             · rw [if_neg hc] at h
               generalize (!pyEqOpt _ _) = q at h
               cases q with
